@@ -26,6 +26,10 @@ def cycle(s, rng, i):
     s.put(B, "b%d" % i)
     s.write(3, B)
     s.write(4, B)
+    # names with the characters a line-oriented record has to think about (tab, backslash, newline)
+    for odd in (WATCH + "/inc/tab\tname %d.txt" % (i % 2), WATCH + "/inc/back\\slash.txt", WATCH + "/inc/two\nlines.txt"):
+        s.put(odd, "o%d" % i)
+        s.write(3, odd)
     s.append(H, "line %d\n" % i)
     s.write(4, H)
     if i % 2 == 1:
@@ -229,7 +233,7 @@ def main(rep):
     rep.cov["input_distribution"] = {"histories": n if exe_impl else 0, "soak_and_burst_runs": nsoak, "event_loop_scripts": total - nsoak - (n if exe_impl else 0)}
     rep.cov["rule"] = ("random mixed histories with the number of descriptors opened by klunok and not closed (wrapped open/close) checked after every operation: "
                        "2 with a handler loaded, 0 after release; soak: one round of a mixed history (editor exec with ELF interpreter, four damaged editor-named ELF images, plain files, sources replaced by a directory / made unreadable, a history path, "
-                       "a project file, a probe file written and deleted in a project of which nothing was ever stored, a collision, an emptied position file of the history path, a deleted source, a deleted source whose clean-up fails with EACCES, four passes) repeated 1, 10 and 100 times must end with identical counts of live heap "
+                       "files whose names hold a tab, a backslash, a newline, a project file, a probe file written and deleted in a project of which nothing was ever stored, a collision, an emptied position file of the history path, a deleted source, a deleted source whose clean-up fails with EACCES, four passes) repeated 1, 10 and 100 times must end with identical counts of live heap "
                        "blocks (wrapped malloc/calloc/realloc/strdup/free) and descriptors, before and after releasing the handler; single bursts of 20 / 140 / 300 (thorough: up to 1100) distinct files due in one pass, and 1 / 10 / 100 rounds of passes that have to wait (a due head superseded by a later save that is not due), must end with identical counts too; the real main() loop over 5-60 scripted events of every "
                        "kind (the daemon's own included): the descriptor of each event is closed exactly once")
     rep.cov["samples"] = [soak_script(1, rep.seed).split("\n")[-25:]]
